@@ -323,7 +323,8 @@ PROPS = {
     "C08": {
         "modules": ["BpModel.Props.C08"],
         "theorems": ["Bp.C08.C08_accept_wf", "Bp.C08.C08_uint_width", "Bp.C08.C08_int_width", "Bp.C08.C08_array_cap",
-                     "Bp.C08.C08_limits_tied", "Bp.C08.C08_size_boundaries", "Bp.C08.C08_field_number_boundaries", "Bp.C08.C08_text_examples", "Bp.C08.C08_text_accept_wf"],
+                     "Bp.C08.C08_limits_tied", "Bp.C08.C08_size_boundaries", "Bp.C08.C08_field_number_boundaries", "Bp.C08.C08_text_examples", "Bp.C08.C08_text_accept_wf",
+                     "Bp.C08.C08_duplicate_before_placement", "Bp.C08.C08_placement_when_free", "Bp.C08.C08_text_examples_order"],
         "explore": _c08,
         "correspondence": "front.check (Lean reference of the documented rules, abstract syntax) and text.check (Lex.lex -> Parse.parseText -> "
                           "checkProgram on arbitrary TEXT) vs bitproto.parser.parse: verdict, rule family, file, line",
